@@ -115,9 +115,16 @@ fn call_any(slot: &mut Option<Unimock>, m: u32, a: u8) -> String {
                 show_val,
             )
         }
-        18 => {
+        18 | 29 | 30 => {
             let rc = Arc::new(slot.take().unwrap());
-            obs(catch_unwind(AssertUnwindSafe(move || rc.p_arc(a).take())), show_val)
+            obs(
+                catch_unwind(AssertUnwindSafe(move || match m {
+                    18 => rc.p_arc(a).take(),
+                    29 => rc.r_arc(a).take(),
+                    _ => rc.p_arc2(a).take(),
+                })),
+                show_val,
+            )
         }
         27 => {
             // the only strong owner, but a Weak pointer is outstanding during the call
@@ -149,10 +156,17 @@ fn call_any(slot: &mut Option<Unimock>, m: u32, a: u8) -> String {
             *slot = Rc::try_unwrap(keep).ok();
             r
         }
-        22 => {
+        22 | 31 | 32 => {
             let rc = Arc::new(slot.take().unwrap());
             let keep = rc.clone();
-            let r = obs(catch_unwind(AssertUnwindSafe(move || rc.p_arc(a).take())), show_val);
+            let r = obs(
+                catch_unwind(AssertUnwindSafe(move || match m {
+                    22 => rc.p_arc(a).take(),
+                    31 => rc.r_arc(a).take(),
+                    _ => rc.p_arc2(a).take(),
+                })),
+                show_val,
+            );
             *slot = Arc::try_unwrap(keep).ok();
             r
         }
